@@ -306,7 +306,7 @@ PROPS = {
     "C06": dict(
         tables=['length_mode', 'frame_constants'],
         audit_modules=["RodbusModel.Audit.C06"],
-        required_theorems=["Rodbus.C06.length_mode_table_correct", "Rodbus.C06.format_crc", "Rodbus.C06.format_len_le", "Rodbus.C06.accept_sound",
+        required_theorems=["Rodbus.C06.span_unchanged", "Rodbus.C06.corruption_rejected_data_bytes", "Rodbus.C06.length_mode_table_correct", "Rodbus.C06.format_crc", "Rodbus.C06.format_len_le", "Rodbus.C06.accept_sound",
                            "Rodbus.C06.rtu_chunking_independent", "Rodbus.C06.burst_detected",
                            "Rodbus.C06.single_bit_detected", "Rodbus.C06.double_bit_detected",
                            "Rodbus.C06.crc_trailer_zero_iff", "Rodbus.C06.corrupted_frame_crc_mismatch",
@@ -363,7 +363,7 @@ PROPS = {
     "C15": dict(
         tables=[],
         audit_modules=["RodbusModel.Audit.C15", "RodbusModel.Audit.C15Net"],
-        required_theorems=["Rodbus.C15Net.pipeline_answer", "Rodbus.C15Net.churn_keeps_sessions", "Rodbus.C15Net.burst_order_irrelevant", "Rodbus.C15.tracker_bound", "Rodbus.C15.evicts_oldest", "Rodbus.C15.remove_absent",
+        required_theorems=["Rodbus.C15Net.no_service_before_admission_reachable", "Rodbus.C15Net.pipeline_answer", "Rodbus.C15Net.churn_keeps_sessions", "Rodbus.C15Net.burst_order_irrelevant", "Rodbus.C15.tracker_bound", "Rodbus.C15.evicts_oldest", "Rodbus.C15.remove_absent",
                            "Rodbus.C15.fresh_id", "Rodbus.C15Net.open_bound", "Rodbus.C15Net.isolation",
                            "Rodbus.C15Net.shutdown_closes_all", "Rodbus.C15Net.evicted_is_oldest",
                            "Rodbus.C15Net.refused_after_shutdown"],
@@ -416,7 +416,7 @@ PROPS = {
     "C01": dict(
         tables=['function_codes', 'exception_codes', 'limits', 'server_limits', 'request_function', 'broadcast', 'frame_constants'],
         audit_modules=["RodbusModel.Audit.C01"],
-        required_theorems=["Rodbus.C01.handleFrame_eq_spec", "Rodbus.C01.parse_iff_valid", "Rodbus.C01.runFrames_eq_spec",
+        required_theorems=["Rodbus.C01.configured_always_answered", "Rodbus.C01.session_replies_exact", "Rodbus.C01.frameOut_eq_frameReply", "Rodbus.C01.handleFrame_eq_spec", "Rodbus.C01.parse_iff_valid", "Rodbus.C01.runFrames_eq_spec",
                            "Rodbus.C01.reply_pdu_len", "Rodbus.C01.unknown_function_reply", "Rodbus.C01.invalid_request_reply",
                            "Rodbus.C01.read_bits_payload", "Rodbus.C01.read_regs_payload", "Rodbus.C01.first_exception_reply",
                            "Rodbus.C01.write_echo", "Rodbus.C01.session_replies", "Rodbus.Tables.fc_table_correct",
@@ -443,7 +443,7 @@ PROPS = {
     "C02": dict(
         tables=[],
         audit_modules=["RodbusModel.Audit.C02"],
-        required_theorems=["Rodbus.C02.calls_justified", "Rodbus.C02.write_once", "Rodbus.C02.write_once_broadcast",
+        required_theorems=["Rodbus.C02.session_calls_justified", "Rodbus.C02.framing_error_ends_session", "Rodbus.C02.calls_justified", "Rodbus.C02.write_once", "Rodbus.C02.write_once_broadcast",
                            "Rodbus.C02.reads_ascending_prefix", "Rodbus.C02.invalid_no_effect", "Rodbus.C02.reads_no_state_change_lookup"],
         suites=[dict(gen="srv_tcp", n=(2500, 150000)), dict(gen="srv_rtu", n=(1500, 100000)), dict(gen="srv_auth", n=(1500, 100000))],
         level_text="Proof: calls_justified (every handler call of handle_frame is justified by a valid, in-limit, permitted request addressed to that "
@@ -497,7 +497,7 @@ PROPS = {
     "C09": dict(
         tables=['tls_versions'],
         audit_modules=["RodbusModel.Audit.C09"],
-        required_theorems=["Rodbus.C09.admission_history_independent", "Rodbus.C09.role_is_own_role_after_any_history", "Rodbus.C09.versions_correct", "Rodbus.C09.tls_table_correct", "Rodbus.C09.admit_iff",
+        required_theorems=["Rodbus.C15Net.no_service_before_admission_reachable", "Rodbus.C09.client_self_signed_single_certificate", "Rodbus.C09.client_extra_certificates_irrelevant", "Rodbus.C09.admission_history_independent", "Rodbus.C09.role_is_own_role_after_any_history", "Rodbus.C09.versions_correct", "Rodbus.C09.tls_table_correct", "Rodbus.C09.admit_iff",
                            "Rodbus.C09.client_admit_iff", "Rodbus.C09.role_is_certificate_role", "Rodbus.C09.no_role_refused",
                            "Rodbus.C09.negotiated_at_least_min", "Rodbus.C09.negotiation_succeeds",
                            "Rodbus.C09.role_is_end_entity_role", "Rodbus.C09.roleless_end_entity_refused"],
